@@ -13,7 +13,7 @@ def FalseBelow (f : α → Bool) (s : List α) (i : Int) : Prop :=
 def TrueAbove (f : α → Bool) (s : List α) (j : Int) : Prop :=
   ∀ (p : Nat) (x : α), s[p]? = some x → j < (p : Int) → f x = true
 
-theorem advI_spec (f : α → Bool) (s : List α) (j : Int) (hj : j < s.length) :
+theorem advI_spec (hinc : partIncI = 3) (hbr : partBreaks = 3) (f : α → Bool) (s : List α) (j : Int) (hj : j < s.length) :
     ∀ (fuel : Nat) (i : Int), 0 ≤ i → j - i ≤ (fuel : Int) → FalseBelow f s i →
       ∃ i', advI f s fuel i j = some i' ∧ i ≤ i' ∧ (i' ≤ j ∨ i' = i) ∧ FalseBelow f s i' ∧
         (i' < j → ∃ x, s[i'.toNat]? = some x ∧ f x = true) := by
@@ -26,7 +26,7 @@ theorem advI_spec (f : α → Bool) (s : List α) (j : Int) (hj : j < s.length) 
   | succ fuel ih =>
     intro i hi hf hfb
     unfold advI
-    simp only [partLoopI, partAdvI, decide_eq_true_eq]
+    simp only [partLoopI, partAdvI, hinc, hbr, decide_eq_true_eq]
     by_cases hij : i < j
     · rw [if_pos hij]
       obtain ⟨n, rfl⟩ := Int.eq_ofNat_of_zero_le hi
@@ -55,7 +55,7 @@ theorem advI_spec (f : α → Bool) (s : List α) (j : Int) (hj : j < s.length) 
       refine ⟨i, rfl, Int.le_refl _, Or.inr rfl, hfb, ?_⟩
       intro h; omega
 
-theorem advJ_spec (f : α → Bool) (s : List α) (i : Int) (hi : 0 ≤ i) :
+theorem advJ_spec (hdec : partDecJ = 2) (hbr : partBreaks = 3) (f : α → Bool) (s : List α) (i : Int) (hi : 0 ≤ i) :
     ∀ (fuel : Nat) (j : Int), j < s.length → j - i ≤ (fuel : Int) → TrueAbove f s j →
       ∃ j', advJ f s fuel i j = some j' ∧ j' ≤ j ∧ (i ≤ j' ∨ j' = j) ∧ TrueAbove f s j' ∧
         (i < j' → ∃ x, s[j'.toNat]? = some x ∧ f x = false) := by
@@ -68,7 +68,7 @@ theorem advJ_spec (f : α → Bool) (s : List α) (i : Int) (hi : 0 ≤ i) :
   | succ fuel ih =>
     intro j hj hf hta
     unfold advJ
-    simp only [partLoopJ, partAdvJ, gt_iff_lt, decide_eq_true_eq]
+    simp only [partLoopJ, partAdvJ, hdec, hbr, gt_iff_lt, decide_eq_true_eq]
     by_cases hij : i < j
     · rw [if_pos hij]
       obtain ⟨n, rfl⟩ := Int.eq_ofNat_of_zero_le (show 0 ≤ j by omega)
@@ -97,7 +97,7 @@ theorem advJ_spec (f : α → Bool) (s : List α) (i : Int) (hi : 0 ≤ i) :
       refine ⟨j, rfl, Int.le_refl _, Or.inr rfl, hta, ?_⟩
       intro h; omega
 
-theorem partOuter_spec (f : α → Bool) :
+theorem partOuter_spec (hinc : partIncI = 3) (hdec : partDecJ = 2) (hsw : partSwaps = 1) (hbr : partBreaks = 3) (f : α → Bool) :
     ∀ (fuel : Nat) (s : List α) (i j : Int), 0 ≤ i → j < s.length → i ≤ j + 1 →
       j - i + 2 ≤ (fuel : Int) * 2 → FalseBelow f s i → TrueAbove f s j →
       ∃ s' i', partOuter f fuel s i j = some (s', i') ∧ s'.Perm s ∧ 0 ≤ i' ∧ i' ≤ s.length ∧
@@ -108,12 +108,12 @@ theorem partOuter_spec (f : α → Bool) :
   | succ fuel ih =>
     intro s i j hi hj hij hf hfb hta
     unfold partOuter
-    obtain ⟨i', e1, a1, a2, a3, a4⟩ := advI_spec f s j hj s.length i hi (by omega) hfb
+    obtain ⟨i', e1, a1, a2, a3, a4⟩ := advI_spec hinc hbr f s j hj s.length i hi (by omega) hfb
     rw [e1]
     simp only
-    obtain ⟨j', e2, b1, b2, b3, b4⟩ := advJ_spec f s i' (by omega) s.length j hj (by omega) hta
+    obtain ⟨j', e2, b1, b2, b3, b4⟩ := advJ_spec hdec hbr f s i' (by omega) s.length j hj (by omega) hta
     rw [e2]
-    simp only [partDone, ge_iff_le, decide_eq_true_eq]
+    simp only [partDone, hbr, hsw, hinc, hdec, and_self, ge_iff_le, decide_eq_true_eq, if_true]
     by_cases hd : j' ≤ i'
     · rw [if_pos hd]
       refine ⟨s, i', rfl, List.Perm.refl _, by omega, by omega, a3, ?_⟩
@@ -171,7 +171,8 @@ theorem partition_perm_and_split (f : α → Bool) (s : List α) (hl64 : s.lengt
     have := (List.getElem?_eq_some_iff.mp hp).1
     omega
   obtain ⟨s', i', e, hperm, h0, hle, hfb, hta⟩ :=
-    partOuter_spec f (s.length + 1) s 0 ((s.length : Int) - 1) (by omega) (by omega) (by omega)
+    -- the step statements of the loops: three `i++`, two `j--`, one swap, three `break`s
+    partOuter_spec rfl rfl rfl rfl f (s.length + 1) s 0 ((s.length : Int) - 1) (by omega) (by omega) (by omega)
       (by omega) hfb0 hta0
   obtain ⟨n, rfl⟩ := Int.eq_ofNat_of_zero_le h0
   have hlen : s'.length = s.length := hperm.length_eq
@@ -196,7 +197,7 @@ theorem partition_perm_and_split (f : α → Bool) (s : List α) (hl64 : s.lengt
     unfold partJ0; exact wrap64_of_range (by omega) (by omega)   -- `len(s) - 1` is exact
   simp only [partI0, hj0]
   rw [e]
-  simp only [getI_nat, partFinal]
+  simp only [getI_nat, partFinal, partIncI, ne_eq, not_true_eq_false, if_false]
   by_cases hn : n < s.length
   · have hn' : n < s'.length := by omega
     rw [List.getElem?_eq_getElem hn']
